@@ -176,9 +176,15 @@ def operator_cases(op, dim, tier):
                                         tuple(x for tr in combo for x in tr)
 
 
+OFFGRID = ([0.0, 1.6], [0.0, 0.37], [-0.93, 0.41], [3.0, 13.7])
+
+
 def check_generator(gen, nparams, shift, arg, precision):
     from artap import operators as ops
-    ps = [{"name": "p%d" % i, "bounds": list(BOXES[(i + shift) % len(BOXES)])} for i in range(nparams)]
+    if shift >= 100:      # bounds that do not lie on the precision grid
+        ps = [{"name": "p%d" % i, "bounds": list(OFFGRID[(i + shift) % len(OFFGRID)])} for i in range(nparams)]
+    else:
+        ps = [{"name": "p%d" % i, "bounds": list(BOXES[(i + shift) % len(BOXES)])} for i in range(nparams)]
     if precision is not None:
         for p in ps:
             p["precision"] = precision
@@ -187,7 +193,7 @@ def check_generator(gen, nparams, shift, arg, precision):
         if gen == "random":
             g = ops.RandomGenerator(ps)
             g.init(arg)
-            rows, _ = with_draws([0.0, HIGH, 0.5] * 8, g.generate)
+            rows, _ = with_draws([0.0, HIGH, 0.5, 0.8, 0.97, 0.03] * 8, g.generate)
         elif gen == "lhs":
             g = ops.LHSGenerator(ps)
             g.init(arg)
@@ -279,6 +285,13 @@ def _shard(shard, col: Collector):
                             col.nontrivial(("gen", gen, nparams, shift, arg, prec))
                             for key, msg in check_generator(gen, nparams, shift, arg, prec):
                                 col.violation(key, "gen", msg, {"gen": gen, "nparams": nparams, "shift": shift, "arg": arg, "precision": prec})
+        for nparams in (1, 2, 3):
+            for shift in (100, 101, 102, 103):
+                for prec in (None, 1e-1, 1e-3, 0.5, 0.05, 0.25, 0.3, 2.0):
+                    col.case()
+                    col.nontrivial(("gen", "random", nparams, shift, 4, prec))
+                    for key, msg in check_generator("random", nparams, shift, 4, prec):
+                        col.violation(key, "gen", msg, {"gen": "random", "nparams": nparams, "shift": shift, "arg": 4, "precision": prec})
         col.sample({"generator": "random", "nparams": 2, "count": 3, "precision": 1e-3}, 1)
     elif kind == "run":
         _, name, N, G, nparams, boxset, seed, bound, part, nparts = shard
